@@ -20,14 +20,13 @@ use std::collections::{BTreeMap, BTreeSet, HashMap};
 use vcore::{Violation, util};
 
 use crate::cells::{
-    Body, BodyKind, NAMED, NAMED_CLASS, Prepared, Principal, Target, in_focus, TargetKind, Variant, access, bodies, effect_at, has_params, nowhere, principals,
-    sha3_hex, targets,
+    Body, BodyKind, NAMED_CLASS, Prepared, Principal, Target, TargetKind, Variant, access, bodies, effect_at, has_params, in_focus, named, nowhere,
+    principals, sha3_hex, targets,
 };
-use crate::model::{Access, DBS, Event, Model, Root, Status, token};
+use crate::model::{Access, Event, Model, Root, Status, token};
+use crate::names::{self, dbn, primary};
 use crate::table::{Effect, Tables};
-use crate::world::{
-    ADMIN_KEY, Auth, COLLECTION, DB_MISSING, DB_NOWHERE, Enc, PRIMARY, Req, Resp, StoreTrace, World, marker, rpc,
-};
+use crate::world::{ADMIN_KEY, Auth, COLLECTION, Enc, Req, Resp, StoreTrace, World, marker, rpc};
 
 #[derive(Default)]
 pub struct Report {
@@ -80,44 +79,44 @@ pub async fn apply_event(w: World, m: &Model, e: Event) -> Result<World, String>
     let mut w = w;
     match e {
         Event::Create { db, key } => {
-            let mut p = json!({"name": DBS[db]});
+            let mut p = json!({"name": dbn(db)});
             if key {
                 p["api_key"] = json!(token(db, m.dbs[db].issued + 1));
             }
             w.admin_rpc("/", "db.create", p).await?;
-            w.seed(DBS[db]).await?;
+            w.seed(dbn(db)).await?;
         }
         Event::SetKey { db } => {
             let r = w
-                .admin_rpc("/", "db.set_api_key", json!({"name": DBS[db], "api_key": token(db, m.dbs[db].issued + 1)}))
+                .admin_rpc("/", "db.set_api_key", json!({"name": dbn(db), "api_key": token(db, m.dbs[db].issued + 1)}))
                 .await?;
             if r.get("api_key").map(|k| !k.is_null()).unwrap_or(false) {
                 return Err(format!("db.set_api_key echoed a supplied key: {r}"));
             }
         }
         Event::SetKeyGen { db } => {
-            let r = w.admin_rpc("/", "db.set_api_key", json!({"name": DBS[db]})).await?;
+            let r = w.admin_rpc("/", "db.set_api_key", json!({"name": dbn(db)})).await?;
             match r.get("api_key").and_then(|k| k.as_str()) {
                 Some(k) if !k.is_empty() => crate::model::set_generated(db, m.dbs[db].issued + 1, k.to_string()),
                 _ => return Err(format!("db.set_api_key without api_key returned no generated key: {r}")),
             }
         }
         Event::RemoveKey { db } => {
-            let r = w.admin_rpc("/", "db.remove_api_key", json!({"name": DBS[db]})).await?;
+            let r = w.admin_rpc("/", "db.remove_api_key", json!({"name": dbn(db)})).await?;
             if r != json!(true) {
                 return Err(format!("db.remove_api_key returned {r}, the model says a key was bound"));
             }
         }
         Event::Close { db } => {
-            w.admin_rpc("/", "db.close", json!({"name": DBS[db]})).await?;
+            w.admin_rpc("/", "db.close", json!({"name": dbn(db)})).await?;
         }
         Event::Open { db } => {
-            w.admin_rpc("/", "db.open", json!({"name": DBS[db]})).await?;
+            w.admin_rpc("/", "db.open", json!({"name": dbn(db)})).await?;
         }
         Event::Connect { db } => {
-            w.admin_rpc("/", "db.connect", json!({"name": DBS[db]})).await?;
+            w.admin_rpc("/", "db.connect", json!({"name": dbn(db)})).await?;
             if m.dbs[db].status == Status::Absent {
-                w.seed(DBS[db]).await?;
+                w.seed(dbn(db)).await?;
             }
         }
         Event::Restart => {
@@ -130,29 +129,55 @@ pub async fn apply_event(w: World, m: &Model, e: Event) -> Result<World, String>
 /// Builds the state `root + history` on a fresh server; returns the world and
 /// the model state. The number of executed events is returned as well.
 pub async fn build_world(root: Root, history: &[Event]) -> Result<(World, Model, u64), String> {
+    build_world_without(root, history, None).await
+}
+
+/// Logical time at which event number `k` of a history starts. Every event
+/// starts at its own fixed time, whatever the events before it consumed: the
+/// timestamps a database carries then depend on ITS events only, which is
+/// what lets two worlds that differ in the other database be compared byte
+/// for byte.
+fn event_time(k: usize) -> u64 {
+    1_700_000_000_000 + k as u64 * 1_000_000
+}
+
+/// As `build_world`, but the events of database `skip` are left out: the
+/// world in which that database was never created (every other event keeps
+/// its position in time).
+pub async fn build_world_without(root: Root, history: &[Event], skip: Option<usize>) -> Result<(World, Model, u64), String> {
     // every world starts at the same logical time (the twin comparison needs
     // identical timestamps in identical histories)
-    anda_db_utils::verif::set_clock(Some((1_700_000_000_000, 1)));
+    anda_db_utils::verif::set_clock(Some((event_time(0), 1)));
     crate::model::clear_generated();
     let mut w = World::boot(root.has_admin().then_some(ADMIN_KEY)).await?;
     let mut m = Model::new(root.has_admin());
     let mut n = 0;
-    for e in root.prelude().into_iter().chain(history.iter().copied()) {
+    for (k, e) in root.prelude().into_iter().chain(history.iter().copied()).enumerate() {
+        if skip.is_some() && e.db() == skip {
+            continue;
+        }
         if !m.enabled(e) {
             return Err(format!("event {e:?} is not enabled in model state {}", m.canon()));
         }
+        // (a restart makes every open database act within one event: the
+        // clock stands still during it, so that the time a database stamps
+        // on its own flush does not depend on how many other databases
+        // flushed before it)
+        let step = if e == Event::Restart { 0 } else { 1 };
+        anda_db_utils::verif::set_clock(Some((event_time(k + 1), step)));
         w = apply_event(w, &m, e).await.map_err(|err| format!("event {e:?} in state {}: {err}", m.canon()))?;
         m.apply(e);
         n += 1;
     }
+    anda_db_utils::verif::set_clock(Some((event_time(root.prelude().len() + history.len() + 1), 1)));
     Ok((w, m, n))
 }
 
 /// Compares the model's control state with what the real server shows.
 async fn probe_canon(w: &mut World, m: &Model) -> Result<(), String> {
     let listed = w.admin_rpc("/", "db.list", Value::Null).await?;
-    let mut expect: Vec<String> = (0..2).filter(|d| m.dbs[*d].status.is_open()).map(|d| DBS[d].to_string()).collect();
-    expect.push(PRIMARY.to_string());
+    let mut expect: Vec<String> = (0..2).filter(|d| m.dbs[*d].status.is_open()).map(|d| dbn(d).to_string()).collect();
+    expect.push(primary().to_string());
     expect.sort();
     let mut got: Vec<String> =
         listed.as_array().map(|a| a.iter().filter_map(|v| v.as_str().map(|s| s.to_string())).collect()).unwrap_or_default();
@@ -160,15 +185,15 @@ async fn probe_canon(w: &mut World, m: &Model) -> Result<(), String> {
     if got != expect {
         return Err(format!("model/real mismatch: db.list = {got:?}, model expects {expect:?} in {}", m.canon()));
     }
-    let meta = w.admin_rpc(&format!("/{PRIMARY}"), "db.metadata", Value::Null).await?;
+    let meta = w.admin_rpc(&format!("/{}", primary()), "db.metadata", Value::Null).await?;
     let keys = meta.get("extensions").and_then(|e| e.get("server:api_keys")).cloned().unwrap_or(json!({}));
     for db in 0..2 {
-        let real = keys.get(DBS[db]).and_then(|v| v.as_str()).map(|s| s.to_string());
+        let real = keys.get(dbn(db)).and_then(|v| v.as_str()).map(|s| s.to_string());
         let model = m.bound_token(db).map(|t| sha3_hex(&t));
         if real != model {
             return Err(format!(
                 "model/real mismatch: persisted key hash of {} = {real:?}, model expects {model:?} in {}",
-                DBS[db],
+                dbn(db),
                 m.canon()
             ));
         }
@@ -176,44 +201,104 @@ async fn probe_canon(w: &mut World, m: &Model) -> Result<(), String> {
     Ok(())
 }
 
-/// Strings that must never reach a caller confined to database `own` (or, for
-/// `own = None`, a public caller).
-fn forbidden(m: &Model, own: Option<usize>) -> Vec<(String, String)> {
-    let mut out = vec![
+/// What a caller confined to database `own` (or, for `own = None`, a public
+/// caller) must never be shown, and what it may be shown.
+///
+/// The names of a universe contain one another (`acme` / `acme_eu`), so a
+/// plain substring search is wrong in both directions. The response is
+/// scanned left to right instead: at every position the LONGEST listed
+/// string that matches there decides — an allowed one (the caller's own
+/// database name, its own data marker, its own tokens) is skipped as a whole,
+/// a forbidden one is a leak.
+#[derive(Clone)]
+struct Secrets {
+    forbidden: Vec<(String, String)>,
+    allowed: Vec<String>,
+    /// First bytes of all listed strings (positions starting with any other
+    /// byte are skipped without comparing).
+    first: [bool; 256],
+}
+
+fn secrets(m: &Model, own: Option<usize>) -> Secrets {
+    let mut forbidden = vec![
         ("admin key".to_string(), ADMIN_KEY.to_string()),
         ("admin key hash".to_string(), sha3_hex(ADMIN_KEY)),
-        ("primary database name".to_string(), PRIMARY.to_string()),
+        ("primary database name".to_string(), primary().to_string()),
         ("server registry key".to_string(), "server:databases".to_string()),
         ("server key map".to_string(), "server:api_keys".to_string()),
         ("scratch database name".to_string(), "scratch_db".to_string()),
     ];
+    let mut allowed = Vec::new();
     for db in 0..2 {
         if own == Some(db) {
+            allowed.push(dbn(db).to_string());
+            allowed.push(marker(dbn(db)));
+            for i in 1..=m.dbs[db].issued + 1 {
+                allowed.push(token(db, i));
+            }
             continue;
         }
-        out.push((format!("name of {}", DBS[db]), DBS[db].to_string()));
-        out.push((format!("data of {}", DBS[db]), marker(DBS[db])));
+        forbidden.push((format!("name of the other database {}", dbn(db)), dbn(db).to_string()));
+        forbidden.push((format!("data of {}", dbn(db)), marker(dbn(db))));
         for i in 1..=m.dbs[db].issued + 1 {
-            out.push((format!("token {i} of {}", DBS[db]), token(db, i)));
-            out.push((format!("hash of token {i} of {}", DBS[db]), sha3_hex(&token(db, i))));
+            forbidden.push((format!("token {i} of {}", dbn(db)), token(db, i)));
+            forbidden.push((format!("hash of token {i} of {}", dbn(db)), sha3_hex(&token(db, i))));
         }
     }
-    out
-}
-
-fn contains(hay: &[u8], needle: &[u8]) -> bool {
-    !needle.is_empty() && hay.windows(needle.len()).any(|w| w == needle)
-}
-
-fn leaks(resp: &Resp, forbidden: &[(String, String)]) -> Option<String> {
-    for (what, s) in forbidden {
-        if contains(&resp.body, s.as_bytes()) {
-            return Some(what.clone());
+    let mut first = [false; 256];
+    for x in forbidden.iter().map(|(_, f)| f).chain(allowed.iter()) {
+        if let Some(b) = x.as_bytes().first() {
+            first[*b as usize] = true;
         }
-        for (_, v) in &resp.headers {
-            if contains(v, s.as_bytes()) {
-                return Some(format!("{what} (in a header)"));
-            }
+    }
+    Secrets { forbidden, allowed, first }
+}
+
+impl Secrets {
+    /// The same lists with `own_input` (something the caller itself sent,
+    /// such as the path segment) allowed: echoing it reveals nothing.
+    fn allowing(&self, own_input: &str) -> Secrets {
+        let mut s = self.clone();
+        if let Some(b) = own_input.as_bytes().first() {
+            s.allowed.push(own_input.to_string());
+            s.first[*b as usize] = true;
+        }
+        s
+    }
+}
+
+/// Leftmost-longest scan of `hay`; `Some(what)` names the first forbidden
+/// string found outside every occurrence of an allowed one.
+fn scan(hay: &[u8], s: &Secrets) -> Option<String> {
+    let mut i = 0;
+    while i < hay.len() {
+        if !s.first[hay[i] as usize] {
+            i += 1;
+            continue;
+        }
+        let rest = &hay[i..];
+        let best_allowed = s.allowed.iter().filter(|a| !a.is_empty() && rest.starts_with(a.as_bytes())).map(|a| a.len()).max();
+        let best_forbidden = s
+            .forbidden
+            .iter()
+            .filter(|(_, f)| !f.is_empty() && rest.starts_with(f.as_bytes()))
+            .max_by_key(|(_, f)| f.len());
+        match (best_allowed, best_forbidden) {
+            (a, Some((what, f))) if a.map(|a| f.len() > a).unwrap_or(true) => return Some(what.clone()),
+            (Some(a), _) => i += a,
+            _ => i += 1,
+        }
+    }
+    None
+}
+
+fn leaks(resp: &Resp, s: &Secrets) -> Option<String> {
+    if let Some(what) = scan(&resp.body, s) {
+        return Some(what);
+    }
+    for (_, v) in &resp.headers {
+        if let Some(what) = scan(v, s) {
+            return Some(format!("{what} (in a header)"));
         }
     }
     None
@@ -241,8 +326,8 @@ fn mask_counters(v: &mut Value) {
 /// Observable state of database `o` and of the instance, as the admin sees it.
 async fn dump(w: &mut World, m: &Model, o: usize) -> Value {
     let admin = crate::world::admin_auth(&w.admin);
-    let odb = format!("/{}", DBS[o]);
-    let primary = format!("/{PRIMARY}");
+    let odb = format!("/{}", dbn(o));
+    let primary = format!("/{}", primary());
     let c = COLLECTION;
     let mut out = Vec::new();
     let list: Vec<(&str, &str, Value)> = vec![
@@ -288,12 +373,16 @@ struct Ctx<'a> {
     model: &'a Model,
     prepared: Prepared,
     lite: bool,
+    focus_reject: bool,
     rep: Report,
 }
 
 impl Ctx<'_> {
     fn replay(&self, phase: &str, p: &Principal, t: &Target, enc: Option<Enc>, b: Option<&Body>) -> Value {
+        let n = names::current();
         json!({
+            "names": n.label,
+            "name_universe": {"primary": n.primary, "A": n.dbs[0], "B": n.dbs[1], "missing": n.missing, "relation": n.relation},
             "root": self.root.as_str(),
             "history": self.history.iter().map(|e| e.to_json()).collect::<Vec<_>>(),
             "state": self.model.canon(),
@@ -323,10 +412,12 @@ impl Ctx<'_> {
         replay["response"] = resp.to_json();
         replay["detail"] = extra;
         let summary = format!(
-            "{what} [state {} after {} event(s); principal {}; POST {}; {}; {}]",
+            "{what} [names {}; state {} after {} event(s); principal {}; {} {}; {}; {}]",
+            names::current().label,
             self.model.canon(),
             self.history.len(),
             p.label,
+            req.verb,
             t.path,
             enc.map(|e| e.as_str()).unwrap_or("-"),
             b.map(|b| b.label.as_str()).unwrap_or("-"),
@@ -387,6 +478,10 @@ fn maybe_sample(cx: &mut Ctx<'_>, phase: &str, p: &Principal, t: &Target, enc: E
     }));
 }
 
+/// HTTP verbs other than `POST`. `GET` is sent to every target except `/`
+/// (`GET /` is the public route and has its own cells).
+pub const VERBS: [&str; 6] = ["GET", "PUT", "DELETE", "PATCH", "HEAD", "OPTIONS"];
+
 /// Index of the database a caller would try to reach beyond its own.
 fn victim_of(m: &Model, p: &Principal) -> usize {
     match m.holder_of(p.token.as_deref()) {
@@ -408,6 +503,11 @@ pub struct Select {
     /// out and the two path-level targets get the minimal-params bodies and
     /// the probes only.
     pub lite: bool,
+    /// Namespace pass: the rejected cells are sent with the small body subset
+    /// (`cells::in_focus`) by every principal — the decision they probe is
+    /// taken from the path and the header before the body is looked at. The
+    /// tenant, twin and admin worlds are complete.
+    pub focus_reject: bool,
 }
 
 impl Select {
@@ -430,7 +530,16 @@ pub async fn run_state(tables: &Tables, root: Root, history: &[Event], select: &
         m
     };
     let bs = bodies(tables);
-    let mut cx = Ctx { tables, root, history, model: &model, prepared: Prepared::new(&bs), lite: false, rep: Report::default() };
+    let mut cx = Ctx {
+        tables,
+        root,
+        history,
+        model: &model,
+        prepared: Prepared::new(&bs),
+        lite: false,
+        focus_reject: select.focus_reject,
+        rep: Report::default(),
+    };
     cx.rep.canon = model.canon();
     for b in &bs {
         if let Some(n) = b.method()
@@ -496,7 +605,7 @@ pub async fn run_state(tables: &Tables, root: Root, history: &[Event], select: &
         }
     }
     for d in 0..2 {
-        let phase = format!("tenant:{}", DBS[d]);
+        let phase = format!("tenant:{}", dbn(d));
         if model.dbs[d].bound.is_none() || !model.admin || !select.wants(&phase) {
             continue;
         }
@@ -525,7 +634,7 @@ pub async fn run_state(tables: &Tables, root: Root, history: &[Event], select: &
                     match perturb_other(&mut w, o).await {
                         Ok(()) => {
                             phase_tenant(&mut cx, &mut w, &phase, d, &ps, &ts, &bs, &mut twin).await;
-                            compare_twins(&mut cx, &phase, d, &ps, &ts, &records, &twin);
+                            compare_twins(&mut cx, &phase, d, &ps, &ts, &records, &twin, Twin::Content);
                         }
                         Err(e) => cx.rep.machinery.push(format!("twin world: {e}")),
                     }
@@ -533,6 +642,33 @@ pub async fn run_state(tables: &Tables, root: Root, history: &[Event], select: &
                 }
                 Err(e) => cx.rep.machinery.push(e),
             }
+        }
+        // Namespace twin: the same history WITHOUT the events of the other
+        // database (it was never created, bound, closed ...), on an instance
+        // whose primary database has another name. The tenant sends the same
+        // bytes; every answer must be byte-identical: nothing it can read —
+        // a list of names, a count, a piece of metadata, an error text — may
+        // depend on which other databases the instance holds or what they are
+        // called.
+        {
+            let base_names = names::current();
+            let mut twin_names = base_names;
+            twin_names.primary = TWIN_PRIMARY;
+            names::install(twin_names);
+            let mut twin: Vec<TenantRecord> = Vec::new();
+            match build_world_without(root, history, Some(o)).await {
+                Ok((mut w, _, n)) => {
+                    let ps = mk_ps(&model);
+                    cx.rep.add("events_executed", n);
+                    cx.rep.add("worlds_built", 1);
+                    phase_tenant_observe(&mut cx, &mut w, d, &ps, &ts, &mut twin).await;
+                    names::install(base_names);
+                    compare_twins(&mut cx, &phase, d, &ps, &ts, &records, &twin, Twin::Namespace);
+                    w.shutdown().await;
+                }
+                Err(e) => cx.rep.machinery.push(format!("namespace twin world: {e}")),
+            }
+            names::install(base_names);
         }
     }
     if select.wants("admin") {
@@ -563,16 +699,17 @@ async fn phase_reject(cx: &mut Ctx<'_>, w: &mut World, ps: &[Principal], ts: &[T
     let m = cx.model;
     let phase = "reject";
     // ---- GET /: public, principal-independent, tells nothing about the instance
-    let secrets = forbidden(m, None);
+    let secrets = secrets(m, None);
     let root_t = &ts[0];
     for enc in [None, Some(Enc::Cbor), Some(Enc::Json)] {
         let mut base: Option<Resp> = None;
         for p in ps {
             let req = Req {
-                get: true,
+                verb: "GET",
                 path: "/".into(),
                 auth: p.auth.clone(),
                 content_type: enc.map(|e| e.content_type()),
+                accept: None,
                 body: Default::default(),
             };
             let (resp, trace) = w.send(&req).await;
@@ -629,8 +766,121 @@ async fn phase_reject(cx: &mut Ctx<'_>, w: &mut World, ps: &[Principal], ts: &[T
         }
     }
 
-    // ---- rejected and path-level cells
+    // ---- the other HTTP verbs. Only `POST` passes the authorization layer
+    // (documented: "other methods keep the router's own 405 answers") and
+    // `GET /` is the one public route, so a verb that reaches a handler is
+    // served WITHOUT any credential check. Whatever the router answers must
+    // come from the path alone: not served on a database route, no store
+    // call, the same bytes for every credential and for every database name
+    // (existing, other key, missing, never existed).
     let nowhere = nowhere();
+    let info_body: bytes::Bytes = Enc::Cbor.encode(&json!({"method": "info"})).into();
+    for verb in VERBS {
+        let mut per_target: Vec<(usize, Resp)> = Vec::new();
+        let mut nowhere_resp: Option<Resp> = None;
+        for (ti, t) in ts.iter().enumerate().filter(|(_, t)| !t.focused).chain(std::iter::once((usize::MAX, &nowhere))) {
+            if verb == "GET" && t.kind == TargetKind::Root {
+                continue;
+            }
+            let secrets = secrets.allowing(&t.decoded);
+            let mut base: Option<Resp> = None;
+            for p in ps.iter().filter(|p| !p.focused) {
+                let req = Req {
+                    verb,
+                    path: t.path.clone(),
+                    auth: p.auth.clone(),
+                    content_type: Some(Enc::Cbor.content_type()),
+                    accept: None,
+                    body: info_body.clone(),
+                };
+                let (resp, trace) = w.send(&req).await;
+                cx.rep.add("evaluations", 1);
+                cx.rep.add("cells_verbs", 1);
+                let tclass = t.class(m, m.holder_of(p.token.as_deref()));
+                cx.distinct(verb, p, &tclass, None, None);
+                let tsig = t.sig_class(m, None);
+                let served = (200..300).contains(&resp.status) && t.kind != TargetKind::Root;
+                if served || !trace.calls.is_empty() || !trace.mutations.is_empty() {
+                    cx.violate(
+                        format!("C14|verb-served|{verb}|{tsig}"),
+                        format!("{verb} is not an RPC verb and passes no credential check, but the request was served ({}) or touched the store", resp.status),
+                        phase,
+                        p,
+                        t,
+                        None,
+                        None,
+                        &req,
+                        &resp,
+                        calls_json(&trace),
+                    );
+                }
+                if let Some(what) = leaks(&resp, &secrets) {
+                    cx.violate(
+                        format!("C14|verb-observe|{verb}|{tsig}"),
+                        format!("the answer to {verb} (no credential check) reveals the {what}"),
+                        phase,
+                        p,
+                        t,
+                        None,
+                        None,
+                        &req,
+                        &resp,
+                        Value::Null,
+                    );
+                }
+                match &base {
+                    None => base = Some(resp),
+                    Some(b0) => {
+                        if *b0 != resp {
+                            cx.violate(
+                                format!("C14|verb-differs-by-credential|{verb}|{tsig}"),
+                                format!("the answer to {verb} depends on the credential"),
+                                phase,
+                                p,
+                                t,
+                                None,
+                                None,
+                                &req,
+                                &resp,
+                                json!({"response_without_credential": b0.to_json()}),
+                            );
+                        }
+                    }
+                }
+            }
+            if let Some(b0) = base {
+                if ti == usize::MAX {
+                    nowhere_resp = Some(b0);
+                } else if !t.path_level && t.kind != TargetKind::Root {
+                    per_target.push((ti, b0));
+                }
+            }
+        }
+        // database routes: the same answer as for a name that never existed
+        if let Some(rref) = nowhere_resp {
+            for (ti, resp) in per_target {
+                if resp != rref {
+                    let t = &ts[ti];
+                    let p = &ps[0];
+                    let req = Req { verb, path: t.path.clone(), auth: p.auth.clone(), content_type: Some(Enc::Cbor.content_type()), accept: None, body: info_body.clone() };
+                    cx.violate(
+                        format!("C14|verb-differs-by-database|{verb}|{}", t.sig_class(m, None)),
+                        format!("the answer to {verb} ({}) differs from the answer for a database that never existed ({})", resp.status, rref.status),
+                        phase,
+                        p,
+                        t,
+                        None,
+                        None,
+                        &req,
+                        &resp,
+                        json!({"reference_request_path": nowhere.path, "reference_response": rref.to_json()}),
+                    );
+                }
+            }
+        }
+    }
+
+    // ---- rejected and path-level cells
     let mut path_base: HashMap<(usize, Enc, usize), Resp> = HashMap::new();
     let mut shapes_seen: BTreeSet<u64> = BTreeSet::new();
     for (pi, p) in ps.iter().enumerate() {
@@ -642,7 +892,7 @@ async fn phase_reject(cx: &mut Ctx<'_>, w: &mut World, ps: &[Principal], ts: &[T
         if rejected_somewhere {
             for enc in [Enc::Cbor, Enc::Json] {
                 for (bi, b) in bs.iter().enumerate() {
-                    if p.focused && !in_focus(b) {
+                    if (p.focused || cx.focus_reject) && !in_focus(b) {
                         continue;
                     }
                     let req = cx.prepared.request(bi, &nowhere.path, p.auth.clone(), enc, victim);
@@ -705,7 +955,7 @@ async fn phase_reject(cx: &mut Ctx<'_>, w: &mut World, ps: &[Principal], ts: &[T
                     if cx.lite && acc == Access::PathLevel && b.variant() == Some(Variant::BadParams) {
                         continue;
                     }
-                    if p.focused && !in_focus(b) {
+                    if (p.focused || t.focused || cx.focus_reject) && !in_focus(b) {
                         continue;
                     }
                     let req = cx.prepared.request(bi, &t.path, p.auth.clone(), enc, victim);
@@ -852,7 +1102,7 @@ async fn phase_keyless_restart(
         let t = ts.iter().find(|t| t.kind == TargetKind::Db(d)).unwrap_or(&ts[0]);
         let mut steps = Vec::new();
         if !m.dbs[d].status.is_open() {
-            let r = rpc("/", Auth::None, Enc::Json, "db.open", json!({"name": DBS[d]}));
+            let r = rpc("/", Auth::None, Enc::Json, "db.open", json!({"name": dbn(d)}));
             let (resp, _) = w.send(&r).await;
             steps.push(json!({"request": r.to_json(), "response": resp.to_json()}));
         }
@@ -863,7 +1113,7 @@ async fn phase_keyless_restart(
             format!("C14|keyless-start-exposes-bound-db|{label}"),
             format!(
                 "an instance restarted without an admin key starts although {} has a key bound; an anonymous caller then gets {} for doc.get on it",
-                DBS[d], resp.status
+                dbn(d), resp.status
             ),
             phase,
             anon,
@@ -943,7 +1193,7 @@ async fn phase_restart_lookahead(cx: &mut Ctx<'_>, w: &mut World, ps: &[Principa
 /// Gives database `o` different content (as admin): two more documents, a
 /// database extension and a collection extension.
 async fn perturb_other(w: &mut World, o: usize) -> Result<(), String> {
-    let path = format!("/{}", DBS[o]);
+    let path = format!("/{}", dbn(o));
     for i in 0..2 {
         w.admin_rpc(
             &path,
@@ -960,6 +1210,17 @@ async fn perturb_other(w: &mut World, o: usize) -> Result<(), String> {
     Ok(())
 }
 
+/// Name of the primary database in the namespace twin world.
+const TWIN_PRIMARY: &str = "twin_main_zz";
+
+#[derive(Clone, Copy, PartialEq, Eq)]
+enum Twin {
+    /// Only the CONTENT of the other database differs.
+    Content,
+    /// The other database does not exist and the primary has another name.
+    Namespace,
+}
+
 fn compare_twins(
     cx: &mut Ctx<'_>,
     phase: &str,
@@ -968,6 +1229,7 @@ fn compare_twins(
     ts: &[Target],
     a: &[TenantRecord],
     b: &[TenantRecord],
+    twin: Twin,
 ) {
     let m = cx.model;
     let Some(p) = ps.iter().find(|p| p.kind == "bound-key" && m.holder_of(p.token.as_deref()) == Some(d)) else { return };
@@ -976,7 +1238,7 @@ fn compare_twins(
         return;
     }
     for (x, y) in a.iter().zip(b.iter()) {
-        cx.rep.add("twin_answers_compared", 1);
+        cx.rep.add(if twin == Twin::Content { "twin_answers_compared" } else { "namespace_twin_answers_compared" }, 1);
         if x.label != y.label {
             cx.rep.machinery.push(format!("twin worlds diverged: {} vs {}", x.label, y.label));
             return;
@@ -990,17 +1252,31 @@ fn compare_twins(
             replay["request"] = x.req.to_json();
             replay["response"] = x.resp.to_json();
             replay["response_in_twin_world"] = y.resp.to_json();
+            let (signature, depends_on) = match twin {
+                Twin::Content => (format!("C14|cross-db-dependence|{method}"), format!("the content of {}", dbn(1 - d))),
+                Twin::Namespace => {
+                    replay["twin_world"] = json!(format!(
+                        "the same history without the events of {}; primary database named {TWIN_PRIMARY} instead of {}",
+                        dbn(1 - d),
+                        primary()
+                    ));
+                    (
+                        format!("C14|namespace-dependence|{method}"),
+                        format!("the existence of {} ({}) or the name of the primary database", dbn(1 - d), m.dbs[1 - d].status.label()),
+                    )
+                }
+            };
             let summary = format!(
-                "the answer to a caller confined to {} depends on the content of {}: {} vs {} [state {} after {} event(s); {}]",
-                DBS[d],
-                DBS[1 - d],
+                "the answer to a caller confined to {} depends on {depends_on}: {} vs {} [names {}; state {} after {} event(s); {}]",
+                dbn(d),
                 x.resp.to_json(),
                 y.resp.to_json(),
+                names::current().label,
                 m.canon(),
                 cx.history.len(),
                 x.label
             );
-            cx.rep.violation(Violation { signature: format!("C14|cross-db-dependence|{method}"), summary, replay });
+            cx.rep.violation(Violation { signature, summary, replay });
         }
     }
 }
@@ -1025,12 +1301,12 @@ async fn phase_tenant(
     let m = cx.model;
     let o = 1 - d;
     let Some(p) = ps.iter().find(|p| p.kind == "bound-key" && m.holder_of(p.token.as_deref()) == Some(d)) else {
-        cx.rep.machinery.push(format!("no bound-key principal for {}", DBS[d]));
+        cx.rep.machinery.push(format!("no bound-key principal for {}", dbn(d)));
         return;
     };
     let own: Vec<&Target> = ts.iter().filter(|t| access(m, p, t) == Access::Scoped(d)).collect();
-    let secrets = forbidden(m, Some(d));
-    let prefix = format!("{}/", DBS[d]);
+    let secrets = secrets(m, Some(d));
+    let prefix = format!("{}/", dbn(d));
     let victim = o;
     // The dump of the other database is taken lazily, right before the first
     // Mutating-classified cell: the bodies are ordered unknown/Read first, and
@@ -1076,7 +1352,7 @@ async fn phase_tenant(
                     // cells would be vacuous: report as a harness problem
                     cx.rep.machinery.push(format!(
                         "the holder of the key bound to {} is rejected on it ({} {}, state {})",
-                        DBS[d],
+                        dbn(d),
                         t.path,
                         b.label,
                         m.canon()
@@ -1086,7 +1362,7 @@ async fn phase_tenant(
                 if let Some(what) = leaks(&resp, &secrets) {
                     cx.violate(
                         format!("C14|cross-db-observe|{}", b.label),
-                        format!("the answer to a caller confined to {} contains the {what}", DBS[d]),
+                        format!("the answer to a caller confined to {} contains the {what}", dbn(d)),
                         phase,
                         p,
                         t,
@@ -1107,7 +1383,7 @@ async fn phase_tenant(
                 if !outside_mut.is_empty() {
                     cx.violate(
                         format!("C14|cross-db-write|{}", b.label),
-                        format!("a caller confined to {} wrote outside its storage prefix: {outside_mut:?}", DBS[d]),
+                        format!("a caller confined to {} wrote outside its storage prefix: {outside_mut:?}", dbn(d)),
                         phase,
                         p,
                         t,
@@ -1120,7 +1396,7 @@ async fn phase_tenant(
                 } else if !outside.is_empty() {
                     cx.violate(
                         format!("C14|cross-db-store-read|{}", b.label),
-                        format!("a caller confined to {} caused store reads outside its prefix: {outside:?}", DBS[d]),
+                        format!("a caller confined to {} caused store reads outside its prefix: {outside:?}", dbn(d)),
                         phase,
                         p,
                         t,
@@ -1162,8 +1438,8 @@ async fn phase_tenant(
                                     format!("C14|cross-db-change|{}", b.label),
                                     format!(
                                         "a request of a caller confined to {} changed {} or server state: {}",
-                                        DBS[d],
-                                        DBS[o],
+                                        dbn(d),
+                                        dbn(o),
                                         first_diff(b0, &after)
                                     ),
                                     phase,
@@ -1188,11 +1464,11 @@ async fn phase_tenant(
     cx.rep.add("other_db_dumps_compared", 1);
     if after != before {
         let t = own.first().copied().unwrap_or(&ts[0]);
-        let req = Req { get: false, path: t.path.clone(), auth: p.auth.clone(), content_type: None, body: Default::default() };
+        let req = Req { verb: "POST", path: t.path.clone(), auth: p.auth.clone(), content_type: None, accept: None, body: Default::default() };
         let resp = Resp { status: 0, headers: vec![], body: vec![] };
         cx.violate(
             "C14|cross-db-change|phase".into(),
-            format!("the requests of a caller confined to {} changed {} or server state: {}", DBS[d], DBS[o], first_diff(&before, &after)),
+            format!("the requests of a caller confined to {} changed {} or server state: {}", dbn(d), dbn(o), first_diff(&before, &after)),
             phase,
             p,
             t,
@@ -1202,6 +1478,35 @@ async fn phase_tenant(
             &resp,
             json!({"before": before, "after": after}),
         );
+    }
+}
+
+/// The tenant cells of `phase_tenant`, in the same order and at the same
+/// logical times, sent in a twin world: the answers are recorded, nothing
+/// else is examined.
+async fn phase_tenant_observe(cx: &mut Ctx<'_>, w: &mut World, d: usize, ps: &[Principal], ts: &[Target], records: &mut Vec<TenantRecord>) {
+    let m = cx.model;
+    let Some(p) = ps.iter().find(|p| p.kind == "bound-key" && m.holder_of(p.token.as_deref()) == Some(d)) else { return };
+    let own: Vec<&Target> = ts.iter().filter(|t| access(m, p, t) == Access::Scoped(d)).collect();
+    let bs = bodies(cx.tables);
+    let victim = 1 - d;
+    let mut cell_no: u64 = 0;
+    for (bi, b) in bs.iter().enumerate() {
+        for enc in [Enc::Cbor, Enc::Json] {
+            for t in &own {
+                let req = cx.prepared.request(bi, &t.path, p.auth.clone(), enc, victim);
+                cell_no += 1;
+                anda_db_utils::verif::set_clock(Some((1_900_000_000_000 + cell_no * 1_000, 1)));
+                let (resp, _) = w.send(&req).await;
+                cx.rep.add("evaluations", 1);
+                cx.rep.add("cells_tenant_twin", 1);
+                records.push(TenantRecord {
+                    label: format!("POST {} {} {} {:?}", t.path, enc.as_str(), b.label, b.variant()),
+                    req,
+                    resp,
+                });
+            }
+        }
     }
 }
 
@@ -1226,6 +1531,9 @@ async fn phase_admin(cx: &mut Ctx<'_>, w: &mut World, ps: &[Principal], ts: &[Ta
                 for t in ts.iter().filter(|t| !t.path_level) {
                     let effect = b.method().and_then(|n| effect_at(cx.tables, t, n));
                     if ai > 0 && effect == Some(Effect::Mutating) {
+                        continue;
+                    }
+                    if t.focused && !in_focus(b) {
                         continue;
                     }
                     let tclass = t.class(m, None);
@@ -1260,13 +1568,13 @@ async fn phase_admin(cx: &mut Ctx<'_>, w: &mut World, ps: &[Principal], ts: &[Ta
                                 .result()
                                 .and_then(|r| r.get("api_key").and_then(|k| k.as_str().map(|s| s.to_string())))
                                 .unwrap_or_else(|| "explicit-key-2718".to_string());
-                            let probe = rpc(&format!("/{}", NAMED[i]), Auth::Bearer(key), Enc::Json, "db.metadata", Value::Null);
+                            let probe = rpc(&format!("/{}", named(i)), Auth::Bearer(key), Enc::Json, "db.metadata", Value::Null);
                             let (presp, _) = w.send(&probe).await;
                             cx.violate(
                                 format!("C14|set-api-key-not-refused|{form}|{why}"),
                                 format!(
                                     "db.set_api_key ({form} key) for `{}` is accepted; the key then gets {} for db.metadata on it",
-                                    NAMED[i], presp.status
+                                    named(i), presp.status
                                 ),
                                 phase,
                                 p,
@@ -1335,5 +1643,4 @@ async fn phase_admin(cx: &mut Ctx<'_>, w: &mut World, ps: &[Principal], ts: &[Ta
             }
         }
     }
-    let _ = (DB_MISSING, DB_NOWHERE);
 }
